@@ -6,7 +6,7 @@
 //! nothing about the generators' index arithmetic:
 //!
 //! * indices in range, all numbers finite;
-//! * vertex normals of length 1 +- 1e-3;
+//! * vertex normals of length 1 +- 2e-4 (measured on the unchanged tree: 3.2e-5);
 //! * for every non-degenerate face, (b-a)x(c-a) . n_v > 0 for the normal n_v of
 //!   each of its three vertices;
 //! * (b-a)x(c-a) . outward_reference > 0 for every non-degenerate face, where the
@@ -402,7 +402,7 @@ fn check_azimuths(m: &M, secs: u32, start_turns: f64, span_turns: f64, scale_xz:
 }
 
 fn tol_surface(feature: f64, scale: f64) -> f64 {
-    1e-3 * feature + 3e-5 * scale
+    2e-4 * feature + 5e-5 * scale
 }
 
 fn note_surface(obs: &mut Obs, err: f64, tol: f64) {
@@ -729,8 +729,8 @@ pub fn check_solid(s: &Solid, obs: &mut Obs) -> Check {
     for i in 0..m.pos.len() {
         ensure!(m.pos[i].iter().chain(m.nrm[i].iter()).all(|c| c.is_finite()), "non-finite", "{kind}: vertex {i} pos {:?} normal {:?}", m.pos[i], m.nrm[i]);
         let l = len(m.nrm[i]);
-        obs.max("| |normal| - 1 | (bound 1e-3)", (l - 1.0).abs());
-        ensure!((l - 1.0).abs() <= 1e-3, "normal-not-unit", "{kind}: vertex {i} at {:?} has normal {:?} of length {l:.6}", m.pos[i], m.nrm[i]);
+        obs.max("| |normal| - 1 | (bound 2e-4)", (l - 1.0).abs());
+        ensure!((l - 1.0).abs() <= 2e-4, "normal-not-unit", "{kind}: vertex {i} at {:?} has normal {:?} of length {l:.6}", m.pos[i], m.nrm[i]);
     }
     // ---- merge coincident vertices
     let tol = (1e-4 * sp.scale).min(0.2 * sp.min_feature);
@@ -997,8 +997,10 @@ fn wide_case() -> BoxedStrategy<Solid> {
         1 => 129u32..=1100,
     ];
     let seg = |lo: u32| prop_oneof![3 => lo..=lo + 1, 2 => lo..=8];
-    let rad_free = prop_oneof![1 => Just(1.0f32), 5 => log_uniform(-9.0, 9.0), 1 => log_uniform(-7.0, -5.0)];
-    let rad_h = prop_oneof![1 => Just(1.0f32), 4 => log_uniform(-3.0, 3.0)];
+    // radii a hair off 1 (where "already unit length" shortcuts would bite), and the wide ranges
+    let near_one = (log_uniform(-5.0, -2.5), any::<bool>()).prop_map(|(d, up)| if up { 1.0 + d } else { 1.0 - d });
+    let rad_free = prop_oneof![1 => Just(1.0f32), 5 => log_uniform(-9.0, 9.0), 1 => log_uniform(-7.0, -5.0), 2 => near_one.clone()];
+    let rad_h = prop_oneof![1 => Just(1.0f32), 4 => log_uniform(-3.0, 3.0), 2 => near_one];
     prop_oneof![
         3 => (sectors.clone(), seg(2), rad_free.clone()).prop_map(|(sectors, segments, r)| Solid::Sphere { sectors, segments, radius: X(r) }),
         3 => (sectors.clone(), prop_oneof![3 => 3u32..=5, 1 => 3u32..=40], rad_free, 0.03f32..0.95)
